@@ -125,3 +125,20 @@ def constructor_context(eng):
                 ctx.add(n)
                 changed = True
     return ctx
+
+
+def aggregate(ck, results, floor_name=None):
+    """Fold per-TU results (from corpus.run_over) into a Check."""
+    from . import common
+    nrep = 0
+    for r in results:
+        if not r['ok']:
+            raise common.AnalysisBroken('TU %s: %s' % (r['cfg'], r['broken'][:2000]))
+        ck.unit(r['cfg'])
+        for rep in r['res']['reports']:
+            nrep += 1
+            if rep.ok:
+                ck.ok(rep.rule, sample=rep.sample)
+            else:
+                ck.violation(rep.rule, rep.key, rep.message, rep.detail)
+    return nrep
